@@ -27,7 +27,7 @@ def dict_keys_list(B, st, d) -> VList:
     dk = st.dkeys()
     ref = z3.Select(dk, d.ref)
     l = VList(ref, d.kt)
-    B.eng.assume_wf(st, l, dk)
+    B.eng.assume_wf(st, l, dk, d.ref)
     return l
 
 
@@ -57,7 +57,7 @@ def dict_get_raw(B, st, d, k):
     if st.ghost.get("dyn"):
         term = z3.simplify(term)
     v = B.eng.wrap(st, term, d.vt)
-    B.eng.assume_wf(st, v, dv if z3.is_const(dv) else None)
+    B.eng.assume_wf(st, v, dv if z3.is_const(dv) else None, d.ref)
     return v
 
 
